@@ -285,12 +285,28 @@ class Ctx:
         closed = out.count("Closed under the global context")
         axioms = []
         if "Axioms:" in out:
-            for blk in re.findall(r"Axioms:\n((?:.+\n?)+?)(?=\n\S|\Z)", out):
-                for l in blk.splitlines():
-                    mm = re.match(r"^([A-Za-z0-9_.']+)\s*:", l)
-                    if mm:
-                        axioms.append(mm.group(1))
-        prims = sorted(set(a for a in axioms if a.startswith(("PrimInt63.", "PrimFloat.", "Uint63.", "PrimArray."))))
+            # every block printed after an "Axioms:" header: one entry per non-indented line, "name : type" or, when the
+            # type is long, the name alone with the type on the following indented lines
+            inblk = False
+            for l in out.splitlines():
+                if l.startswith("Axioms:"):
+                    inblk = True
+                    continue
+                if not inblk:
+                    continue
+                if not l.strip() or l.startswith("Closed under"):
+                    inblk = False
+                    continue
+                if l[0] in " \t":
+                    continue
+                mm = re.match(r"^([A-Za-z_][A-Za-z0-9_.']*)\s*(:.*)?$", l)
+                # axioms of a library are printed with their qualified name; an unqualified line is the output of a following
+                # Check / Print command (this development declares no axiom: hygiene scan)
+                if mm and "." in mm.group(1):
+                    axioms.append(mm.group(1))
+                else:
+                    inblk = False
+        prims = sorted(set(a for a in axioms if a.startswith(("PrimInt63.", "PrimFloat.", "PrimArray."))))
         axioms = [a for a in axioms if a not in prims]
         bad = self.hygiene()
         if bad:
@@ -378,7 +394,13 @@ class Ctx:
         cov.setdefault("distinct_nontrivial", 0)
         cov.setdefault("rule", "")
         cov.setdefault("samples", [])
-        cov.setdefault("trusted_base", TRUSTED_BASE)
+        tb = list(TRUSTED_BASE)
+        ax = (cov.get("proof") or {}).get("axioms_reported") or []
+        if ax:
+            tb[1] = ("axioms: none declared by this development; the theorems of this property that reason about real numbers / the "
+                     "primitive float and integer types (Lemmas/BandLemmas.v through Flocq) depend on these axioms of the standard "
+                     "library, as Print Assumptions reports them: " + ", ".join(ax))
+        cov.setdefault("trusted_base", tb)
         cov.setdefault("obligations", 0)
         cov.setdefault("discharged", 0)
         cov.setdefault("checker_cmd", "coqc")
